@@ -119,6 +119,10 @@ def observe_section(fresh, queries, mode=0):
         out['versions'] = run_impl(versions)
         if kind == 'GNUVerNeedSection':
             out['has_indexes'] = run_impl(lambda: fresh().has_indexes())
+            # three calls on ONE object: the cached answer must be the fresh object's every time, and a walk that raises
+            # must raise again (`_has_indexes` used to be set to False BEFORE the walk: ELFParseError, then False)
+            s3 = fresh()
+            out['has_indexes_hist'] = [run_impl(lambda: s3.has_indexes()) for _ in range(3)]
 
             def get(q):
                 r = s.get_version(q)
@@ -348,6 +352,8 @@ def judge(ctx, stream, case, wf, expect, model, impl):
                 if got.get(key) != exp[key]:
                     bad = (key, exp[key], got.get(key))
                     break
+            if bad is None and 'has_indexes' in exp and got.get('has_indexes_hist') != [exp['has_indexes']] * 3:
+                bad = ('has_indexes_hist', [exp['has_indexes']] * 3, got.get('has_indexes_hist'))
             if bad is None and 'get' in exp:
                 for i, g in enumerate(got.get('get', [])):
                     if isinstance(exp['get'][i], dict) and 'err' in exp['get'][i]:
